@@ -13,7 +13,7 @@ events are consumed and the observed final state equals the state of the specifi
 Data races are not decidable by a TLA+ model of the handlers; they falsify the atomic-effect
 assumption of the model, so part of the histories is produced by a -race build and every
 report of the race detector is a divergence (signature: the pair of racing functions)."""
-import json, os, re, threading
+import json, os, re, threading, time
 from concurrent.futures import ThreadPoolExecutor
 
 import storecmp
@@ -215,12 +215,12 @@ def trace_line(i, sessions, out):
     return dict(i=i, comps=list(COMPS), cl=cl, final=dict(up=bool(f["up"]), store=store, schemas=schemas, jobs=jobs))
 
 
-def validate(ctx, lines, realtime=True, checkfinal=True, label=""):
+def validate(ctx, lines, realtime=True, checkfinal=True, label="", timeout=2400):
     """-> {(history id, component): emitted record} for the accepted pairs"""
     files = extra_files()
     files["trace.cfg"] = trace_cfg(realtime, checkfinal)
     files["traces.ndjson"] = "".join(json.dumps(l, separators=(",", ":")) + "\n" for l in lines)
-    res = ctx.tlc(FAMILY, "ServerConcTrace", "trace.cfg", workers=8, timeout=2400, files=files, heap="6g", count=checkfinal,
+    res = ctx.tlc(FAMILY, "ServerConcTrace", "trace.cfg", workers=8, timeout=timeout, files=files, heap="6g", count=checkfinal,
                   label=label or "validation of %d histories (%s order)" % (len(lines), "real-time" if realtime else "per-client"))
     acc = {}
     for m in res.msgs.get("acc", []):
@@ -575,12 +575,33 @@ def validate_all(ctx, lines, canaries, chunk=500):
     rejected_rt = [l for l in lines if any((l["i"], cm) not in accepted for cm in COMPS)]
     nonlin = 0
     if rejected_rt:
-        acc2 = validate(ctx, [dict(l, comps=[cm for cm in COMPS if (l["i"], cm) not in accepted]) for l in rejected_rt], realtime=False)
+        # fallback pass in the order the property text asks for; its state space is the product of the clients' positions,
+        # so it runs in small batches under a time budget: what is not decided in time gets no verdict
+        todo = [dict(l, comps=[cm for cm in COMPS if (l["i"], cm) not in accepted]) for l in rejected_rt]
+        acc2, undecided = {}, 0
+        budget = time.time() + (240 if ctx.tier == "quick" else 600)
+        for a in range(0, len(todo), 12):
+            try:
+                left = int(budget - time.time())
+                if left < 30:
+                    raise Inconclusive("tlc timeout (budget used up)")
+                acc2.update(validate(ctx, todo[a:a + 12], realtime=False, timeout=left))
+            except Inconclusive as e:
+                if "timeout" not in str(e):
+                    raise
+                for l in todo[a:a + 12]:
+                    for cm in l["comps"]:
+                        acc2[(l["i"], cm)] = [dict(i=l["i"], comp=cm, obs=[], st=[], undecided=True)]
+                        undecided += 1
+        if undecided:
+            ctx.notes.append("%d (history, object) pairs rejected under the real-time order were not decided under the per-client order within "
+                             "the time budget: no verdict for them" % undecided)
+            ctx.cov["undecided_pairs"] = undecided
         for l in rejected_rt:
             for cm in COMPS:
                 if (l["i"], cm) not in accepted and (l["i"], cm) in acc2:
                     accepted[(l["i"], cm)] = acc2[(l["i"], cm)]
-                    nonlin += 1
+                    nonlin += 0 if acc2[(l["i"], cm)][0].get("undecided") else 1
         if nonlin:
             ctx.notes.append("%d (history, object) pairs are explained only by an order that keeps each client's own order but not the "
                              "real-time order of non-overlapping calls of different clients (allowed by the property text)" % nonlin)
